@@ -1,6 +1,8 @@
 //! C01 — same seed, configuration and programs give the same execution.
 //! DESIGN.md §6 C01.  SimDriver; run-twice equality of complete traces, in
-//! one process and (for a deterministic subset) in two fresh OS processes.
+//! one process and (for a deterministic subset) in two fresh OS processes, and (for a
+//! deterministic subset) under wall-clock perturbation (real pauses at the places where
+//! a leaked real clock would enter the simulated execution).
 
 use crate::drivers::trace;
 use crate::engine::{hash_json, replay_as, Ctx, Outcome, Tier};
@@ -50,10 +52,21 @@ pub enum UringOp {
 pub enum Program {
     TcpServer,
     TcpClient { to: usize, chunks: Vec<u16>, pause: u8 },
-    Udp { to: Vec<usize>, n: u8, gap: u8 },
+    Udp {
+        to: Vec<usize>,
+        n: u8,
+        gap: u8,
+        /// virtual ms to wait before the first send
+        #[serde(default, skip_serializing_if = "is_zero_u8")]
+        start: u8,
+    },
     SelectSpawn { n: u8 },
     Fs { ops: Vec<FsOp> },
     Uring { depth: u8, rounds: Vec<Vec<UringOp>> },
+    /// controller script run by host software: sleep `.0` ms (virtual), then apply `.1`
+    /// through the free functions `turmoil::hold/release/partition/repair/partition_oneway/
+    /// repair_oneway` (actions that only exist on the Sim handle are skipped)
+    Controller { script: Vec<(u8, Ctl)> },
 }
 
 #[derive(Clone, Copy, Debug, Serialize, Deserialize)]
@@ -64,6 +77,12 @@ pub enum Ctl {
     Repair(usize, usize),
     Hold(usize, usize),
     Release(usize, usize),
+    PartitionOneway(usize, usize),
+    RepairOneway(usize, usize),
+    /// Sim::links: schedule every in-flight message of the link for delivery
+    DeliverAll(usize, usize),
+    /// Sim::links: schedule the in-flight messages whose index (mod 8) is set in the mask
+    DeliverSome(usize, usize, u8),
 }
 
 #[derive(Clone, Debug, Serialize, Deserialize)]
@@ -96,6 +115,50 @@ pub struct Scenario {
     pub hosts: Vec<Vec<Program>>,
     pub steps: u32,
     pub ctl: Vec<(u32, Ctl)>,
+    /// sub-millisecond part of the tick duration (0 = whole-millisecond tick)
+    #[serde(default, skip_serializing_if = "is_zero_u32")]
+    pub tick_extra_us: u32,
+}
+
+// fields added later are left out of the JSON when they have their default value, so that
+// the scenario hash (which selects the extra sub-checks) of older replay files is unchanged
+fn is_zero_u8(v: &u8) -> bool {
+    *v == 0
+}
+fn is_zero_u32(v: &u32) -> bool {
+    *v == 0
+}
+
+/// Wall-clock perturbation of one execution: real (`std::thread::sleep`) pauses at the
+/// places where a leaked real clock would end up in the simulated execution.  None of
+/// them may change anything observable.
+#[derive(Clone, Copy, Default)]
+struct Perturb {
+    /// before the first step and before every 8th step
+    step_us: u64,
+    /// between `Builder::build()` and the first host registration
+    after_build_us: u64,
+    /// between two host registrations
+    between_hosts_us: u64,
+    /// before every controller action taken through the Sim handle: sleep until real time
+    /// since `build()` is ahead of the virtual time, unless that needs more than this
+    catch_up_cap_us: u64,
+    /// inside host polls (before in-host controller actions, every 4th fs operation)
+    in_host_us: u64,
+}
+
+thread_local! {
+    static IN_HOST_SLEEP_US: Cell<u64> = const { Cell::new(0) };
+    /// classification only: messages that were in flight on a link when the Sim handle
+    /// released / manually delivered / repaired it (summed over the last execution)
+    static RESCHEDULED_IN_FLIGHT: Cell<u64> = const { Cell::new(0) };
+}
+
+fn in_host_real_pause() {
+    let us = IN_HOST_SLEEP_US.with(|c| c.get());
+    if us > 0 {
+        std::thread::sleep(Duration::from_micros(us));
+    }
 }
 
 #[derive(Clone, Default)]
@@ -216,7 +279,7 @@ async fn run_program(sh: Shared, me: usize, nhosts: usize, p: Program, v6: bool)
                 }
             }
         }
-        Program::Udp { to, n, gap } => {
+        Program::Udp { to, n, gap, start } => {
             let u = match UdpSocket::bind((any, 9001)).await {
                 Ok(u) => Rc::new(u),
                 Err(e) => {
@@ -234,6 +297,9 @@ async fn run_program(sh: Shared, me: usize, nhosts: usize, p: Program, v6: bool)
                     }
                 }
             });
+            if start > 0 {
+                tokio::time::sleep(Duration::from_millis(start as u64)).await;
+            }
             for i in 0..n {
                 for t in &to {
                     let t = t % nhosts;
@@ -284,8 +350,11 @@ async fn run_program(sh: Shared, me: usize, nhosts: usize, p: Program, v6: bool)
             let path = |f: u8| format!("/d/f{}", f % 6);
             let r = sfs::create_dir("/d");
             sh.say(me, format!("mkdir /d {}", kind(&r)));
-            for op in ops {
+            for (k, op) in ops.into_iter().enumerate() {
                 sh.fs_obs.set(sh.fs_obs.get() + 1);
+                if k % 4 == 0 {
+                    in_host_real_pause();
+                }
                 match op {
                     FsOp::Write(f, off, len) => {
                         let r = sfs::OpenOptions::new().create(true).write(true).read(true).open(path(f)).and_then(|fl| fl.write_at(&vec![f.wrapping_add(len); (len as usize % 40) + 1], off as u64 % 200));
@@ -414,25 +483,141 @@ async fn run_program(sh: Shared, me: usize, nhosts: usize, p: Program, v6: bool)
             let sums: Vec<u32> = bufs.iter().map(|b| b.iter().map(|x| *x as u32).sum()).collect();
             sh.say(me, format!("uring buffers {sums:?}"));
         }
+        Program::Controller { script } => {
+            let name = |i: usize| format!("h{}", i % nhosts);
+            for (delay, c) in script {
+                tokio::time::sleep(Duration::from_millis(delay as u64)).await;
+                in_host_real_pause();
+                let applied = match c {
+                    Ctl::Partition(a, b) if a % nhosts != b % nhosts => {
+                        turmoil::partition(name(a), name(b));
+                        true
+                    }
+                    Ctl::Repair(a, b) if a % nhosts != b % nhosts => {
+                        turmoil::repair(name(a), name(b));
+                        true
+                    }
+                    Ctl::Hold(a, b) if a % nhosts != b % nhosts => {
+                        turmoil::hold(name(a), name(b));
+                        true
+                    }
+                    Ctl::Release(a, b) if a % nhosts != b % nhosts => {
+                        turmoil::release(name(a), name(b));
+                        true
+                    }
+                    Ctl::PartitionOneway(a, b) if a % nhosts != b % nhosts => {
+                        turmoil::partition_oneway(name(a), name(b));
+                        true
+                    }
+                    Ctl::RepairOneway(a, b) if a % nhosts != b % nhosts => {
+                        turmoil::repair_oneway(name(a), name(b));
+                        true
+                    }
+                    _ => false,
+                };
+                if applied {
+                    sh.say(me, format!("ctl {c:?}"));
+                }
+            }
+        }
+    }
+}
+
+/// Apply one controller action through the Sim handle.  The links-iterator actions also
+/// record what the iterator showed (in-flight messages of the link, in iteration order).
+fn apply_from_sim(sim: &mut turmoil::Sim<'_>, c: Ctl, nhosts: usize, seen: &mut Vec<String>) {
+    let name = |i: usize| format!("h{}", i % nhosts);
+    if let Ctl::Release(a, b) | Ctl::DeliverAll(a, b) | Ctl::DeliverSome(a, b, _) = c {
+        if a % nhosts != b % nhosts {
+            // read-only look at the link (classification only)
+            let (ia, ib) = (sim.lookup(name(a)), sim.lookup(name(b)));
+            sim.links(|links| {
+                for link in links {
+                    let (x, y) = link.pair();
+                    if (x == ia && y == ib) || (x == ib && y == ia) {
+                        let n = link.count() as u64;
+                        RESCHEDULED_IN_FLIGHT.with(|c| c.set(c.get() + n));
+                    }
+                }
+            });
+        }
+    }
+    match c {
+        Ctl::Crash(h) => sim.crash(name(h)),
+        Ctl::Bounce(h) => sim.bounce(name(h)),
+        Ctl::Partition(a, b) if a % nhosts != b % nhosts => sim.partition(name(a), name(b)),
+        Ctl::Repair(a, b) if a % nhosts != b % nhosts => sim.repair(name(a), name(b)),
+        Ctl::Hold(a, b) if a % nhosts != b % nhosts => sim.hold(name(a), name(b)),
+        Ctl::Release(a, b) if a % nhosts != b % nhosts => sim.release(name(a), name(b)),
+        Ctl::PartitionOneway(a, b) if a % nhosts != b % nhosts => sim.partition_oneway(name(a), name(b)),
+        Ctl::RepairOneway(a, b) if a % nhosts != b % nhosts => sim.repair_oneway(name(a), name(b)),
+        Ctl::DeliverAll(a, b) | Ctl::DeliverSome(a, b, _) if a % nhosts != b % nhosts => {
+            let (ia, ib) = (sim.lookup(name(a)), sim.lookup(name(b)));
+            let mask = match c {
+                Ctl::DeliverSome(_, _, m) => Some(m),
+                _ => None,
+            };
+            sim.links(|links| {
+                for link in links {
+                    let (x, y) = link.pair();
+                    if !((x == ia && y == ib) || (x == ib && y == ia)) {
+                        continue;
+                    }
+                    match mask {
+                        None => {
+                            seen.push(format!("links {x}-{y}: deliver_all"));
+                            link.deliver_all();
+                        }
+                        Some(m) => {
+                            let mut line = format!("links {x}-{y}:");
+                            for (i, sent) in link.enumerate() {
+                                let (src, dst) = sent.pair();
+                                let pick = (m >> (i % 8)) & 1 == 1;
+                                line.push_str(&format!(" [{src}->{dst} {}{}]", sent.protocol(), if pick { " deliver" } else { "" }));
+                                if pick {
+                                    sent.deliver();
+                                }
+                            }
+                            seen.push(line);
+                        }
+                    }
+                }
+            });
+        }
+        _ => {}
     }
 }
 
 /// Execute once; returns (trace lines, network events, fs observations).
 fn execute(sc: &Scenario) -> (Vec<String>, usize, u64) {
-    execute_with(sc, 0)
+    execute_with(sc, Perturb::default())
 }
 
-/// `real_sleep_us` > 0: the harness really sleeps that long before the first
-/// step and before every 8th step — wall-clock time that must not influence
-/// the simulated execution.
-fn execute_with(sc: &Scenario, real_sleep_us: u64) -> (Vec<String>, usize, u64) {
+/// The perturbed execution used by `run`: real pauses that put real time well ahead of
+/// virtual time at every place where turmoil takes a timestamp.
+const PERTURBED: Perturb = Perturb { step_us: 4_000, after_build_us: 6_000, between_hosts_us: 1_500, catch_up_cap_us: 40_000, in_host_us: 300 };
+
+fn tick_of(sc: &Scenario) -> Duration {
+    Duration::from_millis(sc.tick_ms.max(1) as u64) + Duration::from_micros(sc.tick_extra_us.min(999) as u64)
+}
+
+/// `pt` non-default: the harness really sleeps at the places described in [`Perturb`] —
+/// wall-clock time that must not influence the simulated execution.
+fn execute_with(sc: &Scenario, pt: Perturb) -> (Vec<String>, usize, u64) {
     let sh = Shared::default();
     let nhosts = sc.hosts.len().clamp(1, 5);
+    IN_HOST_SLEEP_US.with(|c| c.set(pt.in_host_us));
+    RESCHEDULED_IN_FLIGHT.with(|c| c.set(0));
+    let pause = |us: u64| {
+        if us > 0 {
+            std::thread::sleep(Duration::from_micros(us));
+        }
+    };
     let run = || {
         let mut b = turmoil::Builder::new();
         b.rng_seed(sc.seed)
             .epoch(SystemTime::UNIX_EPOCH + Duration::from_secs(sc.epoch_s as u64 + 1))
-            .tick_duration(Duration::from_millis(sc.tick_ms.max(1) as u64))
+            .tick_duration(tick_of(sc))
             .min_message_latency(Duration::from_millis(sc.lat_min.min(sc.lat_max) as u64))
             .max_message_latency(Duration::from_millis(sc.lat_max.max(sc.lat_min) as u64))
             .fail_rate(sc.fail_pct.min(100) as f64 / 100.0)
@@ -462,9 +647,15 @@ fn execute_with(sc: &Scenario, real_sleep_us: u64) -> (Vec<String>, usize, u64) 
                 f.page_cache().page_size(64).max_pages(4).random_eviction_probability(0.25);
             }
         }
+        // only used to size the real pauses of a perturbed execution
+        let built_at = std::time::Instant::now();
         let mut sim = b.build();
+        pause(pt.after_build_us);
         sim.set_message_latency_curve(sc.lambda_x10.max(1) as f64 / 10.0);
         for h in 0..nhosts {
+            if h > 0 {
+                pause(pt.between_hosts_us);
+            }
             let progs = sc.hosts[h].clone();
             let (sh2, v6) = (sh.clone(), sc.v6);
             sim.host(format!("h{h}"), move || {
@@ -484,25 +675,24 @@ fn execute_with(sc: &Scenario, real_sleep_us: u64) -> (Vec<String>, usize, u64) 
                 }
             });
         }
-        let name = |i: usize| format!("h{}", i % nhosts);
         let mut results = Vec::new();
         for done in 0..sc.steps {
-            if real_sleep_us > 0 && done % 8 == 0 {
-                std::thread::sleep(Duration::from_micros(real_sleep_us));
+            if done % 8 == 0 {
+                pause(pt.step_us);
             }
             for (at, c) in &sc.ctl {
                 if *at != done {
                     continue;
                 }
-                match *c {
-                    Ctl::Crash(h) => sim.crash(name(h)),
-                    Ctl::Bounce(h) => sim.bounce(name(h)),
-                    Ctl::Partition(a, b2) if a % nhosts != b2 % nhosts => sim.partition(name(a), name(b2)),
-                    Ctl::Repair(a, b2) if a % nhosts != b2 % nhosts => sim.repair(name(a), name(b2)),
-                    Ctl::Hold(a, b2) if a % nhosts != b2 % nhosts => sim.hold(name(a), name(b2)),
-                    Ctl::Release(a, b2) if a % nhosts != b2 % nhosts => sim.release(name(a), name(b2)),
-                    _ => {}
+                if pt.catch_up_cap_us > 0 {
+                    // real time since build() must be ahead of virtual time when the action runs
+                    let want = sim.elapsed() + tick_of(sc) * 2 + Duration::from_millis(2);
+                    let need = want.saturating_sub(built_at.elapsed());
+                    if need <= Duration::from_micros(pt.catch_up_cap_us) {
+                        std::thread::sleep(need);
+                    }
                 }
+                apply_from_sim(&mut sim, *c, nhosts, &mut results);
             }
             match sim.step() {
                 Ok(_) => {}
@@ -516,6 +706,7 @@ fn execute_with(sc: &Scenario, real_sleep_us: u64) -> (Vec<String>, usize, u64) 
         results
     };
     let (res, mut events) = trace::capture(|| catch_unwind(AssertUnwindSafe(run)));
+    IN_HOST_SLEEP_US.with(|c| c.set(0));
     let net_events = events.iter().filter(|e| e.starts_with("Send") || e.starts_with("Delivered") || e.starts_with("Recv") || e.starts_with("Drop") || e.starts_with("Hold")).count();
     match res {
         Ok(r) => events.extend(r),
@@ -608,8 +799,15 @@ pub fn child_main() -> i32 {
 }
 
 pub fn run(sc: &Scenario) -> Outcome {
+    run_checks(sc, false)
+}
+
+/// `all`: run every sub-check (real delays, fresh processes) instead of the hash-selected
+/// share — used when replaying a stored scenario.
+fn run_checks(sc: &Scenario, all: bool) -> Outcome {
     let mut out = Outcome::ok();
     let (a, net_events, fs_obs) = execute(sc);
+    let in_flight_at_release = RESCHEDULED_IN_FLIGHT.with(|c| c.get());
     let (b, _, _) = execute(sc);
     let has_fs = sc.hosts.iter().flatten().any(|p| matches!(p, Program::Fs { .. }));
     let has_uring = sc.hosts.iter().flatten().any(|p| matches!(p, Program::Uring { .. }));
@@ -637,22 +835,33 @@ pub fn run(sc: &Scenario) -> Outcome {
         );
         return out;
     }
-    // wall-clock independence: real delays injected by the test must not change anything
+    // wall-clock independence: real delays injected by the test (between build() and host
+    // registration, between steps, before controller actions, inside host polls) must not
+    // change anything.  Scenarios whose controller scripts reschedule in-flight messages
+    // (release / manual delivery / repair) are where a leaked real clock would show: half
+    // of those are checked, a quarter of the rest.
     let h = hash_json(sc);
-    if (has_fs || has_uring) && h % 4 == 1 {
-        let (c, _, _) = execute_with(sc, 4_000);
+    let is_resched = |c: &Ctl| matches!(c, Ctl::Release(..) | Ctl::DeliverAll(..) | Ctl::DeliverSome(..) | Ctl::Repair(..) | Ctl::RepairOneway(..));
+    let sim_resched = sc.ctl.iter().any(|c| is_resched(&c.1));
+    let host_ctl = sc.hosts.iter().take(5).flatten().any(|p| matches!(p, Program::Controller { .. }));
+    let host_resched = sc.hosts.iter().take(5).flatten().any(|p| matches!(p, Program::Controller { script } if script.iter().any(|c| is_resched(&c.1))));
+    if all || h % 4 == 1 || ((sim_resched || host_resched) && h % 2 == 1) {
+        let (c, _, _) = execute_with(sc, PERTURBED);
         if c != a {
             let i = a.iter().zip(c.iter()).position(|(x, y)| x != y).unwrap_or(a.len().min(c.len()));
             out.fail(
                 "execution-depends-on-wall-clock-time",
-                format!("with real 4 ms pauses between some steps the trace differs at record {i}: normal {:?} / delayed {:?}", a.get(i), c.get(i)),
+                format!("with real pauses (6 ms after build(), 1.5 ms between host registrations, 4 ms before every 8th step, catch-up before controller actions, 0.3 ms inside host polls) the trace differs at record {i}: normal {:?} / delayed {:?} (lengths {} / {})", a.get(i), c.get(i), a.len(), c.len()),
             );
             return out;
         }
         out.label("checked-with-real-delays");
+        if sim_resched || host_resched {
+            out.label("checked-with-real-delays:rescheduling-controller");
+        }
     }
     // fresh OS processes for a deterministic third of the scenarios
-    if h % 3 == 0 {
+    if all || h % 3 == 0 {
         let mine = hash_lines(&a);
         for n in 0..2 {
             match child_hash(sc) {
@@ -684,8 +893,58 @@ pub fn run(sc: &Scenario) -> Outcome {
     if sc.ctl.iter().any(|c| matches!(c.1, Ctl::Crash(_) | Ctl::Bounce(_))) {
         out.label("with-crash");
     }
-    if sc.ctl.iter().any(|c| matches!(c.1, Ctl::Partition(..) | Ctl::Hold(..))) {
+    let all_ctl: Vec<Ctl> = sc
+        .ctl
+        .iter()
+        .map(|c| c.1)
+        .chain(sc.hosts.iter().take(5).flatten().flat_map(|p| match p {
+            Program::Controller { script } => script.iter().map(|c| c.1).collect::<Vec<_>>(),
+            _ => Vec::new(),
+        }))
+        .collect();
+    if all_ctl.iter().any(|c| matches!(c, Ctl::Partition(..) | Ctl::Hold(..) | Ctl::PartitionOneway(..))) {
         out.label("with-partition-or-hold");
+    }
+    if all_ctl.iter().any(|c| matches!(c, Ctl::Hold(..))) {
+        out.label("with-hold");
+    }
+    if all_ctl.iter().any(|c| matches!(c, Ctl::PartitionOneway(..) | Ctl::RepairOneway(..))) {
+        out.label("with-oneway-partition-or-repair");
+    }
+    if sc.ctl.iter().any(|c| matches!(c.1, Ctl::DeliverAll(..) | Ctl::DeliverSome(..))) {
+        out.label("with-manual-delivery-through-links-iterator");
+    }
+    if !sc.ctl.is_empty() {
+        out.label("controller-from-sim-handle");
+    }
+    if host_ctl {
+        out.label("controller-from-host-software");
+    }
+    let held = a.iter().filter(|l| l.starts_with("Hold")).count();
+    if in_flight_at_release > 0 {
+        out.label("release-or-manual-delivery-from-sim-handle-with-messages-in-flight");
+        out.count("messages in flight on a link when the Sim handle released / delivered it", in_flight_at_release);
+    }
+    if held > 0 {
+        out.label("messages-sent-onto-held-link");
+        if host_resched {
+            out.label("messages-sent-onto-held-link+release-from-host-software");
+        }
+    }
+    match sc.seed {
+        0 => out.label("rng-seed-0"),
+        1 => out.label("rng-seed-1"),
+        u64::MAX => out.label("rng-seed-max"),
+        _ => {}
+    }
+    if sc.lat_max == 0 && sc.lat_min == 0 {
+        out.label("zero-latency");
+    }
+    if sc.tick_extra_us > 0 {
+        out.label("sub-millisecond-tick");
+    }
+    if sc.fail_pct >= 100 || sc.fs.sync_probability_pct >= 100 || sc.fs.io_error_pct >= 100 || sc.fs.short_read_pct >= 100 || sc.fs.corruption_pct >= 100 {
+        out.label("a-probability-knob-at-1");
     }
     if has_fs {
         out.label("with-fs");
@@ -733,43 +992,131 @@ fn program_strategy() -> BoxedStrategy<Program> {
     ];
     prop_oneof![
         2 => Just(Program::TcpServer),
-        3 => (0usize..5, proptest::collection::vec(1u16..80, 1..6), 0u8..4).prop_map(|(to, chunks, pause)| Program::TcpClient { to, chunks, pause }),
-        3 => (proptest::collection::vec(0usize..5, 1..4), 1u8..8, 0u8..4).prop_map(|(to, n, gap)| Program::Udp { to, n, gap }),
+        4 => (0usize..5, proptest::collection::vec(1u16..80, 1..6), 0u8..4).prop_map(|(to, chunks, pause)| Program::TcpClient { to, chunks, pause }),
+        4 => (proptest::collection::vec(0usize..5, 1..4), 1u8..10, 0u8..4, prop_oneof![2 => Just(0u8), 1 => 0u8..12]).prop_map(|(to, n, gap, start)| Program::Udp { to, n, gap, start }),
         2 => (1u8..8).prop_map(|n| Program::SelectSpawn { n }),
         3 => proptest::collection::vec(fsop, 3..25).prop_map(|ops| Program::Fs { ops }),
         2 => (0u8..8, proptest::collection::vec(proptest::collection::vec(uop, 1..6), 1..4)).prop_map(|(depth, rounds)| Program::Uring { depth, rounds }),
+        2 => proptest::collection::vec(host_ctl_fragment(), 1..4).prop_map(|f| Program::Controller { script: f.into_iter().flatten().collect() }),
+    ]
+    .boxed()
+}
+
+/// Link actions name their pair as (a, b) with b in 0..12: b >= 5 means "a link that
+/// carries traffic in this scenario" and is resolved to concrete host indices by
+/// [`retarget`] when the scenario is assembled (so that blocked links are usually busy).
+fn retarget(c: Ctl, edges: &[(usize, usize)]) -> Ctl {
+    let f = |a: usize, b: usize| -> (usize, usize) {
+        if b < 5 {
+            (a, b)
+        } else if edges.is_empty() {
+            (a, b - 5)
+        } else {
+            edges[(a * 7 + b) % edges.len()]
+        }
+    };
+    match c {
+        Ctl::Crash(_) | Ctl::Bounce(_) => c,
+        Ctl::Partition(a, b) => { let (a, b) = f(a, b); Ctl::Partition(a, b) }
+        Ctl::Repair(a, b) => { let (a, b) = f(a, b); Ctl::Repair(a, b) }
+        Ctl::Hold(a, b) => { let (a, b) = f(a, b); Ctl::Hold(a, b) }
+        Ctl::Release(a, b) => { let (a, b) = f(a, b); Ctl::Release(a, b) }
+        Ctl::PartitionOneway(a, b) => { let (a, b) = f(a, b); Ctl::PartitionOneway(a, b) }
+        Ctl::RepairOneway(a, b) => { let (a, b) = f(a, b); Ctl::RepairOneway(a, b) }
+        Ctl::DeliverAll(a, b) => { let (a, b) = f(a, b); Ctl::DeliverAll(a, b) }
+        Ctl::DeliverSome(a, b, m) => { let (a, b) = f(a, b); Ctl::DeliverSome(a, b, m) }
+    }
+}
+
+/// One fragment of an in-host controller script: a single action, or a paired
+/// "block the link, wait, unblock it" sequence.
+fn host_ctl_fragment() -> BoxedStrategy<Vec<(u8, Ctl)>> {
+    let pair = (0usize..5, 0usize..12);
+    prop_oneof![
+        1 => (0u8..6, pair.clone(), 0u8..6).prop_map(|(d, (a, b), k)| vec![(d, match k {
+            0 => Ctl::Partition(a, b),
+            1 => Ctl::Repair(a, b),
+            2 => Ctl::Hold(a, b),
+            3 => Ctl::Release(a, b),
+            4 => Ctl::PartitionOneway(a, b),
+            _ => Ctl::RepairOneway(a, b),
+        })]),
+        3 => (0u8..4, pair.clone(), 1u8..10).prop_map(|(d, (a, b), len)| vec![(d, Ctl::Hold(a, b)), (len, Ctl::Release(a, b))]),
+        1 => (0u8..4, pair.clone(), 1u8..10, any::<bool>()).prop_map(|(d, (a, b), len, oneway)| if oneway {
+            vec![(d, Ctl::PartitionOneway(a, b)), (len, Ctl::RepairOneway(a, b))]
+        } else {
+            vec![(d, Ctl::Partition(a, b)), (len, Ctl::Repair(a, b))]
+        }),
+    ]
+    .boxed()
+}
+
+/// One fragment of the controller script driven from the Sim handle between steps.
+fn sim_ctl_fragment() -> BoxedStrategy<Vec<(u32, Ctl)>> {
+    let pair = (0usize..5, 0usize..12);
+    let at = prop_oneof![1 => 0u32..12, 1 => 0u32..100];
+    let single = prop_oneof![
+        2 => (0usize..5).prop_map(Ctl::Crash),
+        2 => (0usize..5).prop_map(Ctl::Bounce),
+        1 => pair.clone().prop_map(|(a, b)| Ctl::Partition(a, b)),
+        1 => pair.clone().prop_map(|(a, b)| Ctl::Repair(a, b)),
+        1 => pair.clone().prop_map(|(a, b)| Ctl::Hold(a, b)),
+        1 => pair.clone().prop_map(|(a, b)| Ctl::Release(a, b)),
+        1 => pair.clone().prop_map(|(a, b)| Ctl::PartitionOneway(a, b)),
+        1 => pair.clone().prop_map(|(a, b)| Ctl::RepairOneway(a, b)),
+        1 => pair.clone().prop_map(|(a, b)| Ctl::DeliverAll(a, b)),
+        1 => (pair.clone(), any::<u8>()).prop_map(|((a, b), m)| Ctl::DeliverSome(a, b, m)),
+    ];
+    prop_oneof![
+        5 => (at.clone(), single).prop_map(|(t, c)| vec![(t, c)]),
+        // block the link, let traffic pile up, then unblock it (release, or manual delivery
+        // of all / some of the messages followed by a release)
+        3 => (prop_oneof![2 => 0u32..3, 2 => 0u32..8, 1 => 0u32..60], 1u32..14, pair.clone(), 0u8..4, any::<u8>()).prop_map(|(t, len, (a, b), how, m)| match how {
+            0 | 1 => vec![(t, Ctl::Hold(a, b)), (t + len, Ctl::Release(a, b))],
+            2 => vec![(t, Ctl::Hold(a, b)), (t + len, Ctl::DeliverAll(a, b)), (t + len + 2, Ctl::Release(a, b))],
+            _ => vec![(t, Ctl::Hold(a, b)), (t + len, Ctl::DeliverSome(a, b, m)), (t + len + 2, Ctl::Release(a, b))],
+        }),
+        1 => (at, 1u32..14, pair, any::<bool>()).prop_map(|(t, len, (a, b), oneway)| if oneway {
+            vec![(t, Ctl::PartitionOneway(a, b)), (t + len, Ctl::RepairOneway(a, b))]
+        } else {
+            vec![(t, Ctl::Partition(a, b)), (t + len, Ctl::Repair(a, b))]
+        }),
     ]
     .boxed()
 }
 
 pub fn strategy() -> BoxedStrategy<Scenario> {
     let fs = (
-        prop_oneof![2 => Just(0u8), 1 => 1u8..60],
-        prop_oneof![3 => Just(0u8), 1 => 1u8..30],
-        prop_oneof![3 => Just(0u8), 1 => 1u8..50],
-        prop_oneof![3 => Just(0u8), 1 => 1u8..50],
+        prop_oneof![10 => Just(0u8), 5 => 1u8..60, 1 => Just(100u8)],
+        prop_oneof![15 => Just(0u8), 5 => 1u8..30, 1 => Just(100u8)],
+        prop_oneof![15 => Just(0u8), 5 => 1u8..50, 1 => Just(100u8)],
+        prop_oneof![15 => Just(0u8), 5 => 1u8..50, 1 => Just(100u8)],
         prop_oneof![1 => Just(None), 1 => (0u32..3000, 0u32..3000).prop_map(Some)],
         prop_oneof![2 => Just(None), 1 => (1u16..32).prop_map(Some)],
         any::<bool>(),
     )
         .prop_map(|(sync_probability_pct, io_error_pct, short_read_pct, corruption_pct, latency_us, block_size, page_cache)| FsKnobs { sync_probability_pct, io_error_pct, short_read_pct, corruption_pct, latency_us, block_size, page_cache });
-    let ctl = prop_oneof![
-        2 => (0usize..5).prop_map(Ctl::Crash),
-        2 => (0usize..5).prop_map(Ctl::Bounce),
-        1 => (0usize..5, 0usize..5).prop_map(|(a, b)| Ctl::Partition(a, b)),
-        1 => (0usize..5, 0usize..5).prop_map(|(a, b)| Ctl::Repair(a, b)),
-        1 => (0usize..5, 0usize..5).prop_map(|(a, b)| Ctl::Hold(a, b)),
-        1 => (0usize..5, 0usize..5).prop_map(|(a, b)| Ctl::Release(a, b)),
+    // boundary values are weighted into every numeric dimension: "for all rng seeds"
+    // includes 0, 1 and u64::MAX; probabilities include 0 and 1; latency range includes 0..0
+    let seed = prop_oneof![4 => any::<u64>(), 2 => Just(0u64), 1 => Just(1u64), 1 => Just(u64::MAX), 1 => 0u64..4];
+    let epoch = prop_oneof![6 => 0u32..2_000_000_000, 1 => Just(0u32), 1 => Just(u32::MAX)];
+    let tick = prop_oneof![
+        4 => (Just(1u32), Just(0u32)),
+        4 => (2u32..=5, Just(0u32)),
+        1 => (prop_oneof![Just(10u32), Just(50u32), Just(100u32)], Just(0u32)),
+        1 => (1u32..=3, 1u32..1000),
     ];
+    let lat = prop_oneof![6 => (0u32..8, 0u32..30), 1 => Just((0u32, 0u32)), 1 => (0u32..8, Just(0u32)), 1 => (Just(0u32), 1u32..30)];
+    let pct = |hi: u8, w0: u32| prop_oneof![w0 => Just(0u8), 4 => 1u8..hi, 1 => Just(100u8)];
     (
-        (any::<u64>(), 0u32..2_000_000_000, 1u32..=5, (0u32..8, 0u32..30), 1u32..100),
-        (prop_oneof![2 => Just(0u8), 1 => 1u8..40], 0u8..=100, any::<bool>(), prop_oneof![1 => 2usize..6, 2 => Just(64usize)], prop_oneof![1 => 1usize..6, 2 => Just(64usize)], any::<bool>()),
+        (seed, epoch, tick, lat, prop_oneof![8 => 1u32..100, 1 => Just(1u32)]),
+        (pct(40, 9), prop_oneof![8 => 0u8..=100, 1 => Just(0u8), 1 => Just(100u8)], any::<bool>(), prop_oneof![1 => 2usize..6, 2 => Just(64usize)], prop_oneof![1 => 1usize..6, 2 => Just(64usize)], any::<bool>()),
         fs,
-        proptest::collection::vec(proptest::collection::vec(program_strategy(), 1..3), 1..=5),
+        prop_oneof![1 => Just(1usize), 3 => Just(2usize), 6 => 3usize..=5].prop_flat_map(|n| proptest::collection::vec(proptest::collection::vec(program_strategy(), 1..3), n)),
         20u32..120,
-        proptest::collection::vec((0u32..100, ctl), 0..5),
+        proptest::collection::vec(sim_ctl_fragment(), 0..4).prop_map(|f| f.into_iter().flatten().collect::<Vec<_>>()),
     )
-        .prop_map(|((seed, epoch_s, tick_ms, (lat_min, d), lambda_x10), (fail_pct, repair_pct, random_order, tcp_capacity, udp_capacity, v6), fs, mut hosts, steps, mut ctl)| {
+        .prop_map(|((seed, epoch_s, (tick_ms, tick_extra_us), (lat_min, d), lambda_x10), (fail_pct, repair_pct, random_order, tcp_capacity, udp_capacity, v6), fs, mut hosts, steps, mut ctl): (_, _, _, Vec<Vec<Program>>, u32, Vec<(u32, Ctl)>)| {
             ctl.sort_by_key(|c| c.0);
             // one TCP server / one UDP program per host at most (fixed ports)
             for h in hosts.iter_mut() {
@@ -781,7 +1128,37 @@ pub fn strategy() -> BoxedStrategy<Scenario> {
                     _ => true,
                 });
             }
-            Scenario { seed, epoch_s, tick_ms, lat_min, lat_max: lat_min + d, lambda_x10, fail_pct, repair_pct, random_order, tcp_capacity, udp_capacity, v6, fs, hosts, steps, ctl }
+            // resolve "a busy link" pairs against the traffic this scenario really has
+            let n = hosts.len();
+            let mut edges = Vec::new();
+            for (h, progs) in hosts.iter().enumerate() {
+                for p in progs {
+                    match p {
+                        Program::TcpClient { to, .. } if to % n != h => edges.push((h, to % n)),
+                        Program::Udp { to, .. } => edges.extend(to.iter().filter(|t| *t % n != h).map(|t| (h, t % n))),
+                        _ => {}
+                    }
+                }
+            }
+            if edges.is_empty() && n >= 2 && (steps + lambda_x10) % 4 != 3 {
+                // most multi-host scenarios should have some network traffic
+                let h = (steps as usize) % n;
+                hosts[h].retain(|p| !matches!(p, Program::Udp { .. }));
+                let to = (h + 1 + (epoch_s as usize) % (n - 1)) % n;
+                hosts[h].push(Program::Udp { to: vec![to], n: 1 + (lambda_x10 % 9) as u8, gap: (lambda_x10 % 4) as u8, start: (steps % 7) as u8 });
+                edges.push((h, to));
+            }
+            for c in ctl.iter_mut() {
+                c.1 = retarget(c.1, &edges);
+            }
+            for p in hosts.iter_mut().flatten() {
+                if let Program::Controller { script } = p {
+                    for c in script.iter_mut() {
+                        c.1 = retarget(c.1, &edges);
+                    }
+                }
+            }
+            Scenario { seed, epoch_s, tick_ms, lat_min, lat_max: lat_min + d, lambda_x10, fail_pct, repair_pct, random_order, tcp_capacity, udp_capacity, v6, fs, hosts, steps, ctl, tick_extra_us }
         })
         .boxed()
 }
@@ -789,17 +1166,18 @@ pub fn strategy() -> BoxedStrategy<Scenario> {
 fn check(tier: Tier, seed: u64) -> i32 {
     let ctx = Ctx::new("C01", tier, seed, "exploration");
     ctx.replay_corpus(&replay);
-    ctx.random("run-twice", tier.pick(3000, 60_000), &|| strategy(), &run);
+    ctx.random("run-twice", tier.pick(5000, 60_000), &|| strategy(), &run);
     ctx.finish(
-        "random scenarios: builder knobs (rng seed, epoch, tick, latency range and curve, fail/repair rate, random host order, tcp/udp capacity, ip version, fs sync/io-error/short-read/corruption probabilities, io latency, torn-write block size, page cache) x 1-5 hosts each running 1-2 programs from the families TCP echo server, TCP client, UDP chatter, tokio select/spawn/interval, filesystem workload (incl. read_dir), io_uring batches drained through AsyncFd x a controller script (crash, bounce, partition, repair, hold, release). Each scenario is executed twice in this process and the complete traces (every `turmoil` tracing event, every step result or panic message, Sim::elapsed, and the program log with virtual timestamps, values read, error kinds, directory listing order and CQE order) are compared; a deterministic third of the scenarios is additionally executed in two freshly spawned OS processes whose trace hashes must equal the in-process hash. Non-trivial = (>= 10 network events or >= 5 fs/io_uring observations) and at least one rng-consuming knob active. Distinct by scenario hash.",
+        "random scenarios: builder knobs (rng seed with the boundary values 0, 1, u64::MAX and small seeds weighted in, epoch incl. both ends, tick 1-5 ms / 10-100 ms / with a sub-millisecond part, latency range incl. 0..0 and min=max, latency curve, fail/repair rate incl. 0 and 1, random host order, tcp/udp capacity, ip version, fs sync/io-error/short-read/corruption probabilities incl. 0 and 1, io latency, torn-write block size, page cache) x 1-5 hosts each running 1-2 programs from the families TCP echo server, TCP client, UDP chatter (optional start delay), tokio select/spawn/interval, filesystem workload (incl. read_dir), io_uring batches drained through AsyncFd, in-host controller script (turmoil::hold/release/partition/repair/partition_oneway/repair_oneway after virtual sleeps) x a controller script driven from the Sim handle between steps (crash, bounce, partition, repair, partition_oneway, repair_oneway, hold, release, manual delivery of all / a subset of the in-flight messages through the Sim::links iterator; single actions and paired block-wait-unblock fragments, about half of the link pairs aimed at a link that carries traffic). Each scenario is executed twice in this process and the complete traces (every `turmoil` tracing event, every step result or panic message, what the links iterator showed, Sim::elapsed, and the program log with virtual timestamps, values read, error kinds, directory listing order and CQE order) are compared; a deterministic third of the scenarios is additionally executed in two freshly spawned OS processes whose trace hashes must equal the in-process hash; half of the scenarios whose controller scripts reschedule in-flight messages (release, manual delivery, repair) and a quarter of the others are executed once more with real wall-clock pauses (6 ms between Builder::build() and the first host registration, 1.5 ms between host registrations, 4 ms before every 8th step, before every Sim-handle controller action as long as needed (at most 40 ms) to put real time since build() ahead of virtual time, 0.3 ms inside host polls before in-host controller actions and every 4th fs operation) and must give the same trace. Stored scenarios (replay corpus) always get every sub-check. Non-trivial = (>= 10 network events or >= 5 fs/io_uring observations) and at least one rng-consuming knob active. Distinct by scenario hash.",
         &[
-            "host programs are pure functions of the scenario (no wall clock, no OS randomness)",
+            "host programs are pure functions of the scenario (no wall clock, no OS randomness); the real pauses of the perturbed execution have no other effect than letting wall-clock time pass",
             "fresh-process equality is checked between processes started by this binary on this machine; cross-machine differences are out of reach",
             "a scenario that panics (e.g. a documented capacity panic) must panic with the same first message in every run",
+            "partition_oneway/repair_oneway may be combined with hold on the same link although the rustdoc calls the combination unsupported: only run-to-run equality is demanded, not any particular behaviour",
         ],
     )
 }
 
 fn replay(_sub: &str, v: &Value) -> Result<Outcome, String> {
-    replay_as::<Scenario>(v, &run)
+    replay_as::<Scenario>(v, &|sc: &Scenario| run_checks(sc, true))
 }
